@@ -1,4 +1,5 @@
 import BrushVerif.Model.Unquote
+import BrushVerif.Model.QuoteEnv
 /-! Driver for C13: same requests and response format as harness/src/bin/c13.rs
 (`fn`, `ansi`, `rd`, `e2e`); `rdb` reads with bash's `$'\0dd'` rule. -/
 namespace BrushVerif.Drv.C13
@@ -108,6 +109,80 @@ def e2e : List Str → Str
     else "bad-form".toList
   | _ => "bad-form".toList
 
+/-! shadowing contexts: `sh <ctx> <spec>…`, spec = `<s|a|A> <attrs|-> <n> <v1>…<vn>`, innermost first -/
+
+def parseSpecs : Nat → List Str → Option (List Var)
+  | _, [] => some []
+  | 0, _ => none
+  | fuel + 1, k :: a :: n :: rest =>
+    match k, parseNat? n with
+    | [kc], some cnt =>
+      if rest.length < cnt then none
+      else (parseSpecs fuel (rest.drop cnt)).map
+        (fun more => { attrs := attrsOf a, kind := kc, vals := (rest.take cnt).map unesc } :: more)
+    | _, _ => none
+  | _, _ => none
+
+/-- effective attributes: a local inherits the export attribute of the binding it hides; a temporary
+binding is exported -/
+def effective (tmp : Bool) : List Var → List Var
+  | [] => []
+  | [o] => [o]
+  | v :: rest =>
+    let rest' := effective false rest
+    let ox := match rest' with | o :: _ => hasX o.attrs | [] => false
+    { v with attrs := if tmp then ['x'] else inheritX v.attrs ox } :: rest'
+
+def segs (xs : List Str) : Str := joinWith " %| ".toList xs
+
+def withIdx (vals : List Str) : List (Str × Str) :=
+  (List.range vals.length).zip vals |>.map (fun p => (natToStr p.1, p.2))
+
+def shadowSegs (tmp : Bool) (v : Var) : List Str :=
+  let n := "zzv".toList
+  if v.kind = 's' then
+    let x := v.vals.headD []
+    let words := fun (t : Str) => semi [esc t, showOut (readArgs false t), showOut (readAsg false t)]
+    let stmt := fun (nm t : Str) => semi [esc t, readStmt nm t]
+    [ semi ["pq".toList, words (printfQ x)],
+      semi ["Q".toList, words (atQ x)],
+      semi ["A".toList, stmt n (atA v.attrs n x)],
+      semi ["dp".toList, stmt n (declareP v.attrs n x)],
+      semi ["dpl".toList, stmt n (declareP v.attrs n x)],
+      semi ["set".toList, stmt n (setLine n x)],
+      (if hasX v.attrs then semi ["ex".toList, stmt n (exportP n x)] else semi ["ex".toList, "ABSENT".toList]),
+      semi ["xt".toList, words (traceArg x)],
+      semi ["xs".toList, stmt "zzt".toList (setLine "zzt".toList x)],
+      (let t := aliasP "zzal".toList x; semi ["al".toList, esc t, readAlias t]),
+      (let t := trapP x "SIGUSR1".toList; semi ["tr".toList, esc t, readTrap t]) ] ++
+    (if tmp then [] else [semi ["lp".toList, stmt n (declareP v.attrs n x)]])
+  else
+    let kvs := withIdx v.vals
+    let d := declareArr false v.attrs n kvs
+    [ (let t := joinWith [' '] (v.vals.map atQ); semi ["Qa".toList, esc t, showOut (readArgs false t)]),
+      semi ["Aa".toList, esc d, "UNSUP".toList],
+      semi ["dpa".toList, esc d, "UNSUP".toList],
+      semi ["dpl".toList, esc d, "UNSUP".toList],
+      semi ["seta".toList, esc (n ++ ['='] ++ indexedBody kvs), "UNSUP".toList],
+      semi ["lp".toList, esc d, "UNSUP".toList] ]
+
+/-- the scope stack of a shadowing context, the listing view over it, and what is printed for `zzv` -/
+def shadow (toks : List Str) : Str :=
+  match toks with
+  | ctx :: rest =>
+    match parseSpecs (rest.length + 1) rest with
+    | none => "bad-spec".toList
+    | some specs =>
+      let tmp := ctx = "tmp".toList
+      let eff := effective tmp specs
+      let sentinel : Str × Var := ("zzw".toList, { attrs := ['x'], kind := 's', vals := ["END".toList] })
+      let env : Env := (eff.dropLast.map fun v => [("zzv".toList, v)]) ++
+        [(eff.getLast?.map fun o => [("zzv".toList, o), sentinel]).getD [sentinel]]
+      match (visible env).lookup "zzv".toList with
+      | some v => segs (shadowSegs tmp v)
+      | none => "no-binding".toList
+  | [] => "bad-request".toList
+
 def handle (toks : List Str) : Str :=
   match toks with
   | [k, s] =>
@@ -126,7 +201,10 @@ def handle (toks : List Str) : Str :=
       if p = ['a'] then showOut (readArgs bash (unesc t)) else showOut (readAsg bash (unesc t))
     else if k = "e2e".toList then e2e [p, t]
     else "bad-request".toList
-  | k :: rest => if k = "e2e".toList then e2e rest else "bad-request".toList
+  | k :: rest =>
+    if k = "e2e".toList then e2e rest
+    else if k = "sh".toList then shadow rest
+    else "bad-request".toList
   | [] => "bad-request".toList
 
 end BrushVerif.Drv.C13
